@@ -363,14 +363,16 @@ func verifC17History(r *verifC17Rng, idx int, script []verifC17Step) *verifC17Ro
 						mon(i, "request %s forwarded at %d s although it was already forwarded at %d s (%d s <= 11 min earlier)", verifC17Name(req), now, last, now-last)
 					}
 					lastFwd[k] = now
-				} else if qi >= 0 && before[qi] < row.Caps[qi] && (!seen || now-last >= 1080) && row.Period <= 420 {
-					if seen {
-						mon(i, "request %s at %d s not forwarded (outcome %d) although its last forward was at %d s (>= 18 min earlier) and the queue had room (%d of %d)", verifC17Name(req), now, op.Out, last, before[qi], row.Caps[qi])
-					} else {
-						mon(i, "request %s at %d s not forwarded (outcome %d) although it was never forwarded before and the queue had room (%d of %d)", verifC17Name(req), now, op.Out, before[qi], row.Caps[qi])
+				} else if qi >= 0 && before[qi] < row.Caps[qi] && (!seen || now-last >= 1080) {
+					note := ""
+					if row.Period > 420 {
+						note = fmt.Sprintf(" [the purge ticker was asked to run every %d s, more than 7 min]", row.Period)
 					}
-				} else if qi >= 0 && before[qi] < row.Caps[qi] && (!seen || now-last >= 660+row.Period) && row.Period > 420 {
-					mon(i, "request %s at %d s not forwarded: the purge ticker runs every %d s, more than the 7 minutes the suppression window of about eleven minutes allows for", verifC17Name(req), now, row.Period)
+					if seen {
+						mon(i, "request %s at %d s not forwarded (outcome %d) although its last forward was at %d s (>= 18 min earlier) and the queue had room (%d of %d)%s", verifC17Name(req), now, op.Out, last, before[qi], row.Caps[qi], note)
+					} else {
+						mon(i, "request %s at %d s not forwarded (outcome %d) although it was never forwarded before and the queue had room (%d of %d)%s", verifC17Name(req), now, op.Out, before[qi], row.Caps[qi], note)
+					}
 				}
 			}
 		case 1: // the clock advances; the ticker fires at every multiple of its period on the way
